@@ -51,6 +51,9 @@ pub trait SnmpAuth {
     fn placeholder(&self) -> &'static [u8];
     // Sign data in buffer
     fn sign(&self, data: &mut [u8], offset: usize) -> SnmpResult<()>;
+    // Check the signature of the whole message,
+    // `auth_params` must be the part of `data`.
+    fn verify(&self, data: &[u8], auth_params: &[u8]) -> bool;
 }
 
 // - - X X    X X X X
